@@ -140,6 +140,8 @@ impl ChainService {
             return;
         }
 
+        #[cfg(ckb_verif)]
+        ckb_util::verif::point("chain::after_insert_block");
         self.orphan_broker.process_lonely_block(lonely_block.into());
     }
 
